@@ -258,6 +258,7 @@ func (g *vcgen) monLock(mon *Monitor, obj string) {
 	for _, arr := range g.protectedArrs(mon) {
 		cur := g.get(g.st, arr)
 		fv := g.freshConst("lk", arrayElemSort(g.varSort[arr]))
+		g.addWitness(mon.Recv+"."+arr[strings.LastIndex(arr, ".")+1:]+"@lock", fv)
 		g.set(arr, fmt.Sprintf("(store %s %s %s)", cur, obj, fv))
 		// the section's pre-state (what old(...) refers to for protected fields) is the state at Lock
 		g.setOld(arr, fmt.Sprintf("(store %s %s %s)", g.get(g.st, "old:"+arr), obj, fv))
@@ -307,7 +308,7 @@ func (g *vcgen) monUnlock(mon *Monitor, obj string, site string) {
 		if lbl == "" {
 			lbl = fmt.Sprint(i)
 		}
-		g.oblige("monitor/inv", mon.Type+":"+lbl+"@"+site, t, inv.Src)
+		g.obligeAt("monitor/inv", mon.Type+":"+lbl, site, t, inv.Src)
 	}
 	if env.old != nil {
 		for i, gu := range mon.Guarantees {
@@ -320,7 +321,7 @@ func (g *vcgen) monUnlock(mon *Monitor, obj string, site string) {
 			if lbl == "" {
 				lbl = fmt.Sprint(i)
 			}
-			g.oblige("monitor/guarantee", mon.Type+":"+lbl+"@"+site, t, gu.Src)
+			g.obligeAt("monitor/guarantee", mon.Type+":"+lbl, site, t, gu.Src)
 		}
 	}
 	if mon.Waitcond != nil {
@@ -328,7 +329,7 @@ func (g *vcgen) monUnlock(mon *Monitor, obj string, site string) {
 		if err == nil {
 			wold := fmt.Sprintf("(select %s %s)", g.get(g.st, g.woldVar(mon)), obj)
 			bc := fmt.Sprintf("(select %s %s)", g.get(g.st, g.bcastVar(mon)), obj)
-			g.oblige("monitor/wake", mon.Type+"@"+site, fmt.Sprintf("(=> (and %s (not %s)) %s)", w, wold, bc),
+			g.obligeAt("monitor/wake", mon.Type, site, fmt.Sprintf("(=> (and %s (not %s)) %s)", w, wold, bc),
 				"a section that makes the wait condition true must Broadcast")
 		}
 	}
@@ -482,7 +483,7 @@ func (g *vcgen) special(v ssa.Value, fn *ssa.Function, args []string, c *ssa.Cal
 		n := fn.Name()
 		if strings.HasPrefix(n, "Panic") || strings.HasPrefix(n, "Fatal") {
 			if g.safety {
-				g.oblige("safe/unreachable", g.callSite("log."+n), "false", "log."+n+" terminates the process or panics")
+				g.obligeAt("safe/unreachable", "log."+n, g.callSite("log."+n), "false", "log."+n+" terminates the process or panics")
 			}
 			g.assume("false")
 			return g.freshResults(fn.Signature), true
@@ -491,7 +492,7 @@ func (g *vcgen) special(v ssa.Value, fn *ssa.Function, args []string, c *ssa.Cal
 	}
 	if name == "os.Exit" {
 		if g.safety {
-			g.oblige("safe/unreachable", g.callSite("os.Exit"), "false", "os.Exit")
+			g.obligeAt("safe/unreachable", "os.Exit", g.callSite("os.Exit"), "false", "os.Exit")
 		}
 		g.assume("false")
 		return nil, true
@@ -661,6 +662,7 @@ func clauseLabel(c Clause, i int) string {
 // applyContract: assert requires, havoc modifies, assume ensures.
 func (g *vcgen) applyContract(fc *FuncContract, fn *ssa.Function, sig *types.Signature, args, binds []string, calleeName string) []string {
 	site := g.callSite(shortName(calleeName))
+	calleeShort := shortName(calleeName)
 	pre := g.st.clone()
 	envPre := g.contractEnv(fc, fn, sig, args, binds, nil, g.st, nil)
 	for i, r := range fc.Requires {
@@ -669,7 +671,7 @@ func (g *vcgen) applyContract(fc *FuncContract, fn *ssa.Function, sig *types.Sig
 			g.unsupported("requires of %s: %v", calleeName, err)
 			continue
 		}
-		g.oblige("pre", site+":"+clauseLabel(r, i), t, r.Src)
+		g.obligeAt("pre", calleeShort+":"+clauseLabel(r, i), site, t, r.Src)
 	}
 	// frame: what the callee may modify must be allowed by the caller's own modifies clause
 	if fc.HasModifies {
@@ -1207,7 +1209,7 @@ func (g *vcgen) goStmt(x *ssa.Go) {
 				g.unsupported("requires of %s: %v", FullName(fn), err)
 				continue
 			}
-			g.oblige("pre", site+":"+clauseLabel(r, i), t, r.Src)
+			g.obligeAt("pre", "go "+shortName(FullName(fn))+":"+clauseLabel(r, i), site, t, r.Src)
 		}
 	}
 }
